@@ -17,6 +17,7 @@ import (
 	"regexp"
 	"strconv"
 	"strings"
+	"time"
 )
 
 type fuzzFinding struct {
@@ -28,6 +29,7 @@ type fuzzResult struct {
 	inconclusive []string
 	execs        map[string]int64
 	interesting  map[string]int64
+	falseAlarms  int64 // failing inputs of the engine that replay cleanly
 }
 
 var fuzzTargets = []string{"FuzzReadPath", "FuzzWritePath", "FuzzCompactBinary", "FuzzDigest"}
@@ -94,81 +96,144 @@ func runNativeFuzz(perTarget int64, parallel int) *fuzzResult {
 	}
 
 	for _, target := range fuzzTargets {
-		cwd := filepath.Join(tmp, "run-"+target)
-		os.MkdirAll(cwd, 0o755)
-		cmd := exec.Command(bin,
-			"-test.run=^$", "-test.fuzz=^"+target+"$",
-			"-test.fuzztime="+strconv.FormatInt(perTarget, 10)+"x",
-			"-test.fuzzcachedir="+filepath.Join(tmp, "cache-"+target),
-			"-test.parallel="+strconv.Itoa(parallel),
-			"-test.timeout=0",
-		)
-		cmd.Dir = cwd
-		cmd.Env = env
-		var out bytes.Buffer
-		cmd.Stdout = &out
-		cmd.Stderr = &out
-		err := cmd.Run()
-		o := out.String()
-		if od := os.Getenv("VERIF_OUT"); od != "" {
-			os.WriteFile(filepath.Join(od, "fuzz-"+target+".log"), out.Bytes(), 0o644)
-		}
-		if m := execsRe.FindAllStringSubmatch(o, -1); len(m) > 0 {
-			n, _ := strconv.ParseInt(m[len(m)-1][1], 10, 64)
-			res.execs[target] = n
-		}
-		if m := interestRe.FindAllStringSubmatch(o, -1); len(m) > 0 {
-			n, _ := strconv.ParseInt(m[len(m)-1][2], 10, 64)
-			res.interesting[target] = n
-		}
-		if err == nil {
-			if res.execs[target] == 0 {
-				res.inconclusive = append(res.inconclusive, "native fuzzing: "+target+" reported no executions: "+tail(o, 600))
+		// The engine declares an input failing when its worker process does not
+		// answer within about a second ("fuzzing process hung or terminated
+		// unexpectedly"). On an overloaded machine that happens to healthy
+		// workers. Such an input is therefore replayed in-process through the
+		// same oracle: only what the oracle (or a crash of this process) confirms
+		// is a finding; otherwise the target is started again, at most 3 times.
+		for attempt := 1; ; attempt++ {
+			again := runFuzzTarget(res, bin, tmp, target, attempt, perTarget, parallel, env)
+			if !again {
+				break
 			}
-			continue
-		}
-		// Failure: an oracle message, an unexplained failing input, or an engine problem.
-		var crasher string
-		if m := failingRe.FindStringSubmatch(o); m != nil {
-			src := m[1]
-			if !filepath.IsAbs(src) {
-				src = filepath.Join(cwd, src)
-			}
-			if b, err := os.ReadFile(src); err == nil {
-				dst := filepath.Join(vd, "replays", "C20-fuzz-"+target+"-"+filepath.Base(src))
-				os.MkdirAll(filepath.Dir(dst), 0o755)
-				if os.WriteFile(dst, b, 0o644) == nil {
-					crasher = fmt.Sprintf("\nfailing input (go fuzz corpus format) copied to %s:\n%s", dst, tail(string(b), 2000))
-				}
+			if attempt == 3 {
+				res.inconclusive = append(res.inconclusive, "native fuzzing: "+target+": the engine killed its own worker in 3 attempts although the reported inputs replay cleanly (machine overloaded?)")
+				break
 			}
 		}
-		if ms := violationRe.FindAllStringSubmatchIndex(o, -1); len(ms) > 0 {
-			seen := map[string]bool{}
-			for i, m := range ms {
-				sig := o[m[2]:m[3]]
-				if seen[sig] {
-					continue
-				}
-				seen[sig] = true
-				end := len(o)
-				if i+1 < len(ms) {
-					end = ms[i+1][0]
-				}
-				d := o[m[1]:end]
-				if len(d) > 6000 {
-					d = d[:6000] + "…"
-				}
-				res.findings = append(res.findings, fuzzFinding{sig, "found by the native fuzz target " + target + ": " + d + crasher})
-			}
-			continue
-		}
-		if crasher != "" {
-			res.findings = append(res.findings, fuzzFinding{"fuzz:" + target + ":failing-input-without-oracle-message", tail(o, 3000) + crasher})
-			continue
-		}
-		res.inconclusive = append(res.inconclusive, fmt.Sprintf("native fuzzing: %s did not run to completion (%v): %s", target, err, tail(o, 1200)))
 	}
 	return res
+}
+
+// runFuzzTarget runs one target once. It returns true when the run ended in an
+// engine artifact and should be repeated.
+func runFuzzTarget(res *fuzzResult, bin, tmp, target string, attempt int, perTarget int64, parallel int, env []string) (again bool) {
+	vd := verifDir()
+	cwd := filepath.Join(tmp, fmt.Sprintf("run-%s-%d", target, attempt))
+	os.MkdirAll(cwd, 0o755)
+	cmd := exec.Command(bin,
+		"-test.run=^$", "-test.fuzz=^"+target+"$",
+		"-test.fuzztime="+strconv.FormatInt(perTarget, 10)+"x",
+		"-test.fuzzcachedir="+filepath.Join(tmp, fmt.Sprintf("cache-%s-%d", target, attempt)),
+		"-test.parallel="+strconv.Itoa(parallel),
+		"-test.timeout=0",
+	)
+	cmd.Dir = cwd
+	cmd.Env = env
+	var out bytes.Buffer
+	cmd.Stdout = &out
+	cmd.Stderr = &out
+	err := cmd.Run()
+	o := out.String()
+	if od := os.Getenv("VERIF_OUT"); od != "" {
+		os.WriteFile(filepath.Join(od, fmt.Sprintf("fuzz-%s-%d.log", target, attempt)), out.Bytes(), 0o644)
+	}
+	if m := execsRe.FindAllStringSubmatch(o, -1); len(m) > 0 {
+		n, _ := strconv.ParseInt(m[len(m)-1][1], 10, 64)
+		res.execs[target] += n
+	}
+	if m := interestRe.FindAllStringSubmatch(o, -1); len(m) > 0 {
+		n, _ := strconv.ParseInt(m[len(m)-1][2], 10, 64)
+		if n > res.interesting[target] {
+			res.interesting[target] = n
+		}
+	}
+	if err == nil {
+		if res.execs[target] == 0 {
+			res.inconclusive = append(res.inconclusive, "native fuzzing: "+target+" reported no executions: "+tail(o, 600))
+		}
+		return false
+	}
+	// Failure: an oracle message, an engine artifact, or an engine problem.
+	var crasher string
+	var corpus []byte
+	if m := failingRe.FindStringSubmatch(o); m != nil {
+		src := m[1]
+		if !filepath.IsAbs(src) {
+			src = filepath.Join(cwd, src)
+		}
+		if b, err := os.ReadFile(src); err == nil {
+			corpus = b
+			crasher = fmt.Sprintf("\nfailing input (go fuzz corpus format, %s):\n%s", filepath.Base(src), tail(string(b), 2000))
+		}
+	}
+	save := func() {
+		if corpus == nil {
+			return
+		}
+		dst := filepath.Join(vd, "replays", fmt.Sprintf("C20-fuzz-%s-%x", target, md5.Sum(corpus))[:len("C20-fuzz-")+len(target)+1+16])
+		os.MkdirAll(filepath.Dir(dst), 0o755)
+		if os.WriteFile(dst, corpus, 0o644) == nil {
+			crasher += "\ncopied to " + dst
+		}
+	}
+	if ms := violationRe.FindAllStringSubmatchIndex(o, -1); len(ms) > 0 {
+		save()
+		seen := map[string]bool{}
+		for i, m := range ms {
+			sig := o[m[2]:m[3]]
+			if seen[sig] {
+				continue
+			}
+			seen[sig] = true
+			end := len(o)
+			if i+1 < len(ms) {
+				end = ms[i+1][0]
+			}
+			d := o[m[1]:end]
+			if len(d) > 6000 {
+				d = d[:6000] + "…"
+			}
+			res.findings = append(res.findings, fuzzFinding{sig, "found by the native fuzz target " + target + ": " + d + crasher})
+		}
+		return false
+	}
+	if corpus != nil {
+		// No oracle message: replay in-process. A genuine crash takes this worker
+		// process down (the driver of the check reports that as panic:/fatal:), a
+		// genuine hang is caught by the watchdog below.
+		vals, perr := parseCorpus(corpus)
+		if perr != nil {
+			res.inconclusive = append(res.inconclusive, fmt.Sprintf("native fuzzing: %s reported a failing input that cannot be read back (%v): %s", target, perr, tail(o, 600)))
+			return false
+		}
+		cs := &collectSink{}
+		done := make(chan error, 1)
+		go func() { done <- replayCorpus(target, vals, cs) }()
+		select {
+		case rerr := <-done:
+			if rerr != nil {
+				res.inconclusive = append(res.inconclusive, fmt.Sprintf("native fuzzing: %s: %v", target, rerr))
+				return false
+			}
+		case <-time.After(5 * time.Minute):
+			save()
+			res.findings = append(res.findings, fuzzFinding{"hang:" + target, "the input on which the fuzz engine lost its worker does not finish within 5 minutes when replayed in-process" + crasher})
+			return false
+		}
+		if len(cs.v) > 0 {
+			save()
+			for _, f := range cs.v {
+				res.findings = append(res.findings, fuzzFinding{f.sig, "found by the native fuzz target " + target + " (confirmed by in-process replay): " + f.detail + crasher})
+			}
+			return false
+		}
+		res.falseAlarms++
+		return true
+	}
+	res.inconclusive = append(res.inconclusive, fmt.Sprintf("native fuzzing: %s did not run to completion (%v): %s", target, err, tail(o, 1200)))
+	return false
 }
 
 func tail(s string, n int) string {
